@@ -113,6 +113,9 @@ type Reg struct {
 	// this is only used where nothing is constructed (Build must fail).
 	HasCtorOf bool
 	CtorOf    int
+	// After: ids of registrations whose calls must come before this one (it
+	// registers an identity again that one of them registered and removed).
+	After []int
 	// Dropped: indices into AllProvides() of identities that are removed from
 	// the collection again (Remove / RemoveKeyed) right after the registration
 	// call. The constructor still produces those outputs, but they are not
@@ -186,6 +189,12 @@ func (r Reg) String() string {
 	}
 	if r.HasCtorOf {
 		fmt.Fprintf(&sb, " same-function-as=r%d", r.CtorOf)
+	}
+	if len(r.After) > 0 {
+		fmt.Fprintf(&sb, " (registered after r%d removed it)", r.After[0])
+	}
+	if r.Kind == 6 && twinShapeOK(&r) {
+		sb.WriteString(" (parameter object: one of two local types both called 'params')")
 	}
 	if r.Kind == 5 && embedShapeOK(&r) {
 		sb.WriteString(" (dependency declared through an embedded In field)")
